@@ -28,12 +28,20 @@ def dec(x):
     return x
 
 
-def show(x):
-    """Human-readable rendering for samples and messages (not parsed back)."""
+def show(x, limit=400):
+    """Human-readable rendering for samples and messages (not parsed back); long renderings
+    (size letters: hundreds of targets) are cut in the middle."""
+    s = _show(x)
+    if len(s) > limit:
+        s = s[: limit - 60] + " ...<%d chars>... " % len(s) + s[-40:]
+    return s
+
+
+def _show(x):
     if isinstance(x, bytes):
         return L.show(x)
     if isinstance(x, (tuple, list)):
-        return "(" + ", ".join(show(y) for y in x) + ")"
+        return "(" + ", ".join(_show(y) for y in x) + ")"
     if isinstance(x, dict):
-        return "{" + ", ".join("%s: %s" % (show(k), show(v)) for k, v in x.items()) + "}"
+        return "{" + ", ".join("%s: %s" % (_show(k), _show(v)) for k, v in x.items()) + "}"
     return str(x)
